@@ -1,6 +1,7 @@
 (* C11/Properties.v — the property theorems, nothing else.  Each is closed by [exact lemma]
    and followed by Print Assumptions (captured into the evidence by the check driver). *)
-From Verif Require Import Common.Base Generated.StatusTable C11.Model C11.Diagram C11.Proofs.
+From Coq Require Import Permutation.
+From Verif Require Import Common.Base Generated.StatusTable C11.Model C11.Diagram C11.Proofs C11.ProofsConc.
 
 (* The transition table read from the Go source IS the documented diagram (instance obligation,
    re-checked against the regenerated table on every run). *)
@@ -79,6 +80,53 @@ Theorem shared_delivers_all_refuted : exists i j es es',
   proj_events j (sc_events os) <> proj_events i (sc_events os) /\ proj_events j (sc_events os) = [].
 Proof. exact shared_refuted_l. Qed.
 
+(* ---- reports for the same instance arriving concurrently -------------------------------------------
+   Reports issued concurrently (any number, any instances, the automatic OK included) after a
+   sequential prefix: the outcomes the model allows (the ones the concurrency harness accepts)
+   are exactly the sequential runs over ALL permutations of the concurrent reports, each report
+   taking effect atomically. *)
+Theorem concurrent_outcomes_are_linearisations : forall pre conc out,
+  In out (conc_outcomes pre conc) <->
+  exists p, Permutation conc p /\ out = snd (rep_run [] (pre ++ p)).
+Proof. exact conc_outcomes_spec_l. Qed.
+
+(* ... every one of them is, for every instance, a path of the diagram. *)
+Theorem concurrent_events_follow_diagram : forall pre conc out i,
+  In out (conc_outcomes pre conc) -> path SNone (proj_events i out).
+Proof. exact conc_path_l. Qed.
+
+(* The status the reporter holds for an instance is always the last event it delivered for it. *)
+Theorem current_status_is_last_event : forall ls i,
+  rget i (fst (rep_run [] ls)) = last (proj_events i (snd (rep_run [] ls))) SNone.
+Proof. exact current_is_last_event_l. Qed.
+
+(* The automatic OK, wherever it falls in the linearisation of reports from any number of
+   goroutines (hist = everything that took effect before it, for this and other instances):
+   it delivers OK exactly when the LAST event delivered for the instance is Starting — never after
+   a status the component reported for itself in the meantime. *)
+Theorem auto_ok_in_any_linearisation : forall hist i,
+  snd (rep_step (fst (rep_run [] hist)) (i, RAutoOK)) =
+  if status_eqb (last (proj_events i (snd (rep_run [] hist))) SNone) Starting then Some (i, OK) else None.
+Proof. exact auto_ok_linearised_l. Qed.
+
+(* Why atomicity is an assumption worth validating: an automatic OK done as check-then-act (status
+   read in one critical section, OK reported in a second one) coincides with the automatic OK when
+   nothing runs between its halves ... *)
+Theorem check_then_act_uninterrupted_is_auto_ok : forall m seen i,
+  na_run m seen [NaCheck i; NaAct i] =
+  match snd (rep_step m (i, RAutoOK)) with Some x => [x] | None => [] end.
+Proof. exact na_atomic_l. Qed.
+
+(* ... but is NOT linearisable: with one report of the component between the halves the watchers
+   see Starting, RecoverableError, OK, which no ordering of the two atomic reports produces. *)
+Theorem check_then_act_auto_ok_refuted :
+  exists pre i s,
+    let out := snd (rep_run [] pre) ++
+               na_run (fst (rep_run [] pre)) [] [NaCheck i; NaAtomic i (RStatus s); NaAct i] in
+    out = [(i, Starting); (i, RecoverableError); (i, OK)] /\
+    ~ In out (conc_outcomes pre [(i, RAutoOK); (i, RStatus s)]).
+Proof. exact na_refuted_l. Qed.
+
 Print Assumptions table_is_diagram.
 Print Assumptions events_follow_diagram.
 Print Assumptions events_in_words.
@@ -91,3 +139,9 @@ Print Assumptions shared_delivers_all_partial.
 Print Assumptions shared_delivers_all_refuted.
 Print Assumptions auto_ok_after_any_history.
 Print Assumptions lifecycle_events_follow_diagram.
+Print Assumptions concurrent_outcomes_are_linearisations.
+Print Assumptions concurrent_events_follow_diagram.
+Print Assumptions current_status_is_last_event.
+Print Assumptions auto_ok_in_any_linearisation.
+Print Assumptions check_then_act_uninterrupted_is_auto_ok.
+Print Assumptions check_then_act_auto_ok_refuted.
